@@ -151,8 +151,8 @@ func bitNot(a Bit) Bit {
 // bvEnv is the evaluation environment of M3.
 type bvEnv struct {
 	p      *Pkg
-	state  []BV                  // current abstract value of each receiver byte
-	locals map[types.Object]BV   // single-assignment uint8 locals
+	state  []BV                   // current abstract value of each receiver byte
+	locals map[types.Object]BV    // single-assignment uint8 locals
 	consts map[types.Object]int64 // integer parameters of an inlined helper, bound to constant arguments
 	depth  int
 	isObj  func(e ast.Expr) bool // does e denote "the object" (receiver / the one T-typed variable)?
